@@ -205,7 +205,7 @@ Step ==
             LET mm == SkipTo(m)
                 r == RMessages(mm.ob)
                 M == r.msgs
-                partial == mm.inb # << >>       \* the stream ended inside a (multi-packet) message
+                partial == mm.inb # << >> /\ e.client_left = 0      \* the stream really ended, inside a (multi-packet) message
                 expectErr == mm.badfrag \/ mm.fault \/ partial
                 vres == IF e.result = "panic" THEN {V("C20", l, "run_on panicked at " \o e.site)}
                         ELSE IF e.result \in {"livelock", "timeout"} THEN {V("C20", l, "run_on did not terminate")}
